@@ -1328,7 +1328,12 @@ func setPath(doc any, path []any, v any) any {
 // canonical layout and in one rotating uniform layout style: no panic, no hang, model xor error.
 func c08MergeSets(ctx *core.Ctx) {
 	styles := uniformStyles()
-	for i, fs := range mergeSets(false) {
+	// the look-alike sets of C16 first (conflicts behind longer look-alike names, keywords used as type names inside
+	// restriction lists): under EVERY uniform style - the error paths of the merger look at the text of the files
+	sets := c16MergeSets()
+	nAlike := len(sets)
+	sets = append(sets, mergeSets(false)...)
+	for i, fs := range sets {
 		if !ctx.Mine(i) {
 			continue
 		}
@@ -1336,7 +1341,23 @@ func c08MergeSets(ctx *core.Ctx) {
 			ctx.Cap("wall-clock cap in module file sets")
 			return
 		}
-		for si, st := range []map[string]int{nil, styles[1+i%(len(styles)-1)], nil} {
+		type variant struct {
+			st  map[string]int
+			rev bool
+		}
+		vs := []variant{{nil, false}, {styles[1+i%(len(styles)-1)], false}, {nil, true}}
+		if i < nAlike {
+			vs = vs[:0]
+			for _, st := range styles {
+				vs = append(vs, variant{st, false})
+			}
+			vs = append(vs, variant{nil, true})
+		}
+		for _, v := range vs {
+			st, si := v.st, 0
+			if v.rev {
+				si = 2
+			}
 			files := renderFiles(fs.Files, st, nil)
 			if si == 2 {
 				// the same files in reverse order (a malformed member first, an extension before its type)
